@@ -14,7 +14,7 @@ from checks.C14 import gen_filter_value, op
 PROPERTY = 'C10'
 LEVEL = 'exploration'
 RULE = ('seeded random stores of 1-25 recordings over categories Op/OpX/Op_x/Op_x_y/A/Job[v2]/A*/Q?x (prefixes of each other, underscores, shell-pattern metacharacters; the directory name of the file cassette has such characters in every second store) with JSON-native metadata (absent keys, '
-        'incomplete flag True/False/absent) saved identically on memory, file, S3 prefix "" / p / pp; per store ~30 queries '
+        'incomplete flag True/False/absent) saved identically on memory, file, S3 prefix "" / p / pp / svc/metadata / full (segments named like the key parts of the cassette itself); per store ~30 queries '
         '(category x filter x limit in {None,1,2,n-1,n,n+1,1000} x ordered/random) through iter_recording_ids, '
         'iter_recordings_metadata and find_matching_recording_ids. A case = one query on one store; distinct = hash of '
         '(store metadata, category, filter, limit, path); non-trivial = the store holds >=2 categories or the filter is non-empty.')
@@ -23,7 +23,7 @@ ASSUMPTIONS = ['limit=0 not judged (in-memory/file read it as "no limit", S3 as 
                'reference matcher as in C14; unspecified cases may or may not be listed']
 
 CATS = ['Op', 'OpX', 'Op_x', 'Op_x_y', 'A', 'Job[v2]', 'A*', 'Q?x']
-CONFIGS = [('memory', ''), ('file', ''), ('s3', ''), ('s3', 'p'), ('s3', 'pp')]
+CONFIGS = [('memory', ''), ('file', ''), ('s3', ''), ('s3', 'p'), ('s3', 'pp'), ('s3', 'svc/metadata'), ('s3', 'full')]
 INC = '_tape_recorder_incomplete_recording'
 
 
